@@ -294,8 +294,9 @@ def api_cases(rng, n, with_opencc, stats, long_lists=False):
     try:
         for l in open(CORPUS):
             f = l.split()
-            if len(f) == 3 and not l.startswith("#") and (with_opencc or f[1] == "-"):
-                cases.append((f[0], f[1], f[2], ["x", "i 0 8", "v 0", "x"]))
+            if len(f) >= 3 and not l.startswith("#") and (with_opencc or (f[1] == "-" and "zh_" not in l and "simplification" not in l)):
+                ops = " ".join(f[3:]).split(",") if len(f) > 3 else ["x", "i 0 8", "v 0", "x"]
+                cases.append((f[0], f[1], f[2], [o.strip() for o in ops if o.strip()]))
     except FileNotFoundError:
         pass
     stats["corpus_cases"] = len(cases)
@@ -332,78 +333,162 @@ def api_cases(rng, n, with_opencc, stats, long_lists=False):
             elif with_opencc and rng.random() < 0.08:
                 opts = "simplification=1"
                 keys = keys if len(keys) >= 2 else keys + rng.choice("abcdefghijklmnopqrstuvwxy")
-        nops = rng.choice([3, 5, 8, 12])
-        ops = []
-        for _ in range(nops):
-            q = rng.random()
-            if q < 0.3:
-                ops.append("x")
-            elif q < 0.42:
-                ops.append("v %d" % (0 if rng.random() < 0.7 else 1))
-            elif q < 0.52:
-                ops.append("h %d" % rng.choice([0, 1, 4, 5, 6, 9, 10, 23, 57, 200, 5000]))
-            elif q < 0.58:
-                ops.append("o %d" % rng.randrange(6))
-            elif q < 0.75:
-                ops.append("i %d %d" % (rng.choice([0, 0, 1, 4, 5, 6, 11, 30, 99, 1000]), rng.choice([1, 5, 6, 20])))
+        def reads(k):
+            out = []
+            for _ in range(k):
+                q = rng.random()
+                if q < 0.3:
+                    out.append("x")
+                elif q < 0.42:
+                    out.append("v %d" % (0 if rng.random() < 0.7 else 1))
+                elif q < 0.52:
+                    out.append("h %d" % rng.choice([0, 1, 3, 4, 5, 6, 9, 10, 23, 57, 200, 5000]))
+                elif q < 0.58:
+                    out.append("o %d" % rng.randrange(6))
+                elif q < 0.75:
+                    out.append("i %d %d" % (rng.choice([0, 0, 1, 4, 5, 6, 11, 30, 99, 1000]), rng.choice([1, 5, 6, 20])))
+                else:
+                    out.append(rng.choice(["NP", "NP", "NP", "PP", "NC", "NC", "PC"]))
+            return out
+
+        hist = rng.random()
+        plain_letters = keys.isalpha()
+        if hist < 0.22 and plain_letters:
+            # (i) the caret moved in front of unconfirmed input (position 0: Compose re-creates the segment after the
+            # caret on every update), then paging / highlighting and re-reading every index already reported
+            kind = "caret"
+            if rng.random() < 0.5:
+                keys = "=" + keys
+            mv = rng.choice(["C 0", "C 0", "C 0", "KH", "KL", "C %d" % rng.randrange(len(keys)), "KL KL", "C 0 KR"])
+            ops = reads(rng.choice([0, 1, 2]))
+            toks = mv.split()
+            j = 0
+            while j < len(toks):
+                if toks[j] == "C":
+                    ops.append("C %s" % toks[j + 1])
+                    j += 2
+                else:
+                    ops.append(toks[j])
+                    j += 1
+            ops += ["x", "i 0 7"] + reads(rng.choice([1, 2, 3])) + ["h %d" % rng.choice([1, 2, 3, 4, 6, 8]), "x", "i 0 12",
+                                                                     "v 0", "x", "v 1", "x", "i 0 12"]
+        elif hist < 0.40:
+            # (ii) an option toggled while composing - unrelated to the candidates, or related (then the reference is a
+            # fresh session in the new option state) - and everything re-read
+            kind = "option"
+            if schema == "luna_pinyin":
+                pool = ["full_shape", "ascii_punct", "full_shape", "ascii_punct"] + (["zh_simp", "zh_tw"] if with_opencc else [])
             else:
-                ops.append(rng.choice(["NP", "NP", "NP", "PP", "NC", "NC", "PC"]))
-        ops.append("x")
+                pool = ["full_shape", "ascii_punct", "extended_charset", "extended_charset"] + (["simplification"] if with_opencc else [])
+            oname = rng.choice(pool)
+            ops = ["x", "i 0 7"] + reads(rng.choice([0, 1, 2])) + ["O %s 1" % oname, "x", "i 0 12"] + reads(rng.choice([1, 2]))
+            if rng.random() < 0.5:
+                ops += ["O %s 0" % oname, "x", "i 0 12"]
+            ops += ["x"]
+        else:
+            kind = "plain"
+            ops = reads(rng.choice([3, 5, 8, 12]))
+            ops.append("x")
+        stats["history:" + kind] = stats.get("history:" + kind, 0) + 1
         cases.append((schema, opts, keys, ops))
         stats["schema:" + schema] = stats.get("schema:" + schema, 0) + 1
         stats["opts:" + opts] = stats.get("opts:" + opts, 0) + 1
     return cases
 
 
+STATE_OPS = ("C", "KH", "KL", "KR", "O")
+
+
+def is_state_op(op):
+    return op.split()[0] in STATE_OPS
+
+
 def parse_api(line):
-    """-> (ps, [obs], [(text, comment)] reference list, nodup)"""
+    """-> (ps, entries); an entry is ("E", caret of the session, caret of the reference, [(text, comment)]) - the
+    reference list of a new epoch - or an observation (ret, flag, hl, [(idx, text, comment)]) or (raw text,)"""
     parts = [p.strip() for p in line.split(" ; ")]
-    ps, obs, ref, nd = None, [], None, None
+    ps, entries = None, []
     for p in parts:
         f = p.split()
         if not f:
             continue
         if f[0] == "PS":
             ps = int(f[1])
-        elif f[0] == "LC":
+        elif f[0] == "E":
             ref = []
-            for it in f[2:]:
+            for it in f[4:]:
                 i, rest = it.split("=", 1)
                 t, c = rest.split(":")
                 ref.append((t, c))
-        elif f[0] == "ND":
-            nd = f[1] == "1"
+            entries.append(("E", int(f[1]), int(f[2]), ref))
         elif f[0].isdigit() and len(f) >= 3:
             items = []
             for it in f[3:]:
                 i, rest = it.split("=", 1)
                 t, c = rest.split(":")
                 items.append((int(i), t, c))
-            obs.append((int(f[0]), f[1] == "1", int(f[2]), items))
+            entries.append((int(f[0]), f[1] == "1", int(f[2]), items))
         else:
-            obs.append((p,))
-    return ps, obs, ref, nd
+            entries.append((p,))
+    return ps, entries
 
 
 def oracle_api(ops, line):
-    """The property's own oracle: page view vs iterator's list (read in a fresh session)."""
-    ps, obs, ref, nd = parse_api(line)
-    if ps is None or ref is None or len(obs) != len(ops):
+    """The property's own oracle.  An epoch = a stretch of calls during which input, caret and options do not
+    change; its reference is the list the iterator gives in a brand-new session brought to the same state.
+    Within an epoch: every page is a window of the reference, the last-page flag is exact, the iterator agrees,
+    an index never changes its text/comment, no text repeats (both schemas use the uniquifier)."""
+    ps, entries = parse_api(line)
+    if ps is None or len(entries) != len(ops) + 1 or entries[0][0] != "E":
         return [("unparsable", line[:300])], None
     bad = []
-    n = len(ref)
+    info = {"ps": ps, "epochs": 1, "desync": 0, "refs": [entries[0][3]], "obs": [], "state_ops_applied": 0}
+
+    def dup_check(ref, ep):
+        seen, d = {}, []
+        for i, (t, c) in enumerate(ref):
+            if t in seen:
+                d.append((seen[t], i, "".join(chr(int(y)) for y in t.split("."))))
+            seen.setdefault(t, i)
+        if d:
+            bad.append(("duplicate-text", "epoch %d: the schema uses the uniquifier but entries %s have the same text" % (ep, d[:4])))
+
+    ref = entries[0][3]
+    dup_check(ref, 0)
     reported = {}
-    for op, o in zip(ops, obs):
+    ep = 0
+    for op, o in zip(ops, entries[1:]):
+        if o[0] == "E":
+            ep += 1
+            info["epochs"] += 1
+            info["state_ops_applied"] += 1
+            reported = {}
+            if o[1] != o[2]:
+                info["desync"] += 1      # the reference session did not reach the same caret: nothing to compare with
+                ref = None
+            else:
+                ref = o[3]
+                info["refs"].append(ref)
+                dup_check(ref, ep)
+            continue
+        info["obs"].append(o)
         if len(o) == 1:
             bad.append(("composition-lost", "%s after %s" % (o[0], op)))
             continue
+        if is_state_op(op):
+            continue                      # a Home key that was not sent
         ret, flag, hl, items = o
         for (i, t, c) in items:
-            if i >= n or ref[i] != (t, c):
-                bad.append(("window", "%s reported %s at index %d, the iterated list has %s" % (op, (t, c), i, ref[i] if i < n else "nothing")))
             if i in reported and reported[i] != (t, c):
-                bad.append(("stability", "index %d changed from %s to %s" % (i, reported[i], (t, c))))
+                bad.append(("stability", "epoch %d: %s shows %s at index %d where %s was reported before" % (ep, op, (t, c), i, reported[i])))
             reported[i] = (t, c)
+        if ref is None:
+            continue
+        n = len(ref)
+        for (i, t, c) in items:
+            if i >= n or ref[i] != (t, c):
+                bad.append(("window", "epoch %d: %s reported %s at index %d, the list of a fresh session has %s" %
+                            (ep, op, (t, c), i, ref[i] if i < n else "nothing")))
         if op == "x":
             if ret == 0:
                 if n != 0:
@@ -412,8 +497,8 @@ def oracle_api(ops, line):
             pno = ret - 1
             want = max(0, min(ps, n - pno * ps))
             if [i for i, _, _ in items] != list(range(pno * ps, pno * ps + want)) or want == 0:
-                bad.append(("window", "page %d shows indices %s, expected %d entries from %d (list length %d)" %
-                            (pno, [i for i, _, _ in items], want, pno * ps, n)))
+                bad.append(("window", "epoch %d: page %d shows indices %s, expected %d entries from %d (list length %d)" %
+                            (ep, pno, [i for i, _, _ in items], want, pno * ps, n)))
             if flag != (pno * ps + ps >= n):
                 bad.append(("last-page-flag", "page %d of size %d over %d entries has is_last_page=%s" % (pno, ps, n, flag)))
             if not (0 <= hl < max(1, len(items))):
@@ -422,17 +507,10 @@ def oracle_api(ops, line):
             _, a, k = op.split()
             a, k = int(a), int(k)
             if ret == 1 and [(t, c) for _, t, c in items] != ref[a:a + k]:
-                bad.append(("iterator", "iteration from %d gave %d entries, expected %d" % (a, len(items), len(ref[a:a + k]))))
+                bad.append(("iterator", "epoch %d: iteration from %d gave %d entries, expected %d" % (ep, a, len(items), len(ref[a:a + k]))))
             if ret == 0 and n != 0:
                 bad.append(("no-menu", "candidate_list_from_index failed but the list has %d entries" % n))
-    if nd is False:
-        seen, d = {}, []
-        for i, (t, c) in enumerate(ref):
-            if t in seen:
-                d.append((seen[t], i, "".join(chr(int(y)) for y in t.split("."))))
-            seen.setdefault(t, i)
-        bad.append(("duplicate-text", "the schema uses the uniquifier but entries %s have the same text" % d[:4]))
-    return bad, (ps, obs, ref)
+    return bad, info
 
 
 def model_line_for(ops, ps, ref):
@@ -466,35 +544,40 @@ def run_api(ctx, rmodel, exe, b, ncases):
                        "stderr": err[-6000:]}, found_input=True)
     stats.update({"cases": len(cases), "observed": len(lines), "oracle_fail": 0, "model_mismatch": 0, "candidates_seen": 0,
                   "with_menu": 0, "max_list": 0})
+    stats.update({"epochs": 0, "state_ops_applied": 0, "epochs_without_reference": 0})
     mfeed, mwant = [], []
     nontrivial = set()
     for (schema, opts, keys, ops), line in zip(cases, lines):
-        flat = []
-        for o in ops:
-            flat.append(o)
-        bad, parsed = oracle_api(ops, line)
-        if parsed:
-            ps, obs, ref = parsed
-            stats["candidates_seen"] += len(ref)
-            stats["max_list"] = max(stats["max_list"], len(ref))
+        bad, info = oracle_api(ops, line)
+        if info:
+            ps, ref = info["ps"], info["refs"][0]
+            stats["epochs"] += info["epochs"]
+            stats["state_ops_applied"] += info["state_ops_applied"]
+            stats["epochs_without_reference"] += info["desync"]
+            for r_ in info["refs"]:
+                stats["candidates_seen"] += len(r_)
+                stats["max_list"] = max(stats["max_list"], len(r_))
             if ref:
                 stats["with_menu"] += 1
             if len(ref) > ps:
-                nontrivial.add((schema, opts, keys))
-            ml, cm = model_line_for(ops, ps, ref)
-            mfeed.append(ml)
-            mwant.append((schema, opts, keys, ops, obs, cm))
+                nontrivial.add((schema, opts, keys, " ".join(o for o in ops if is_state_op(o))))
+            if info["state_ops_applied"] == 0 and not any(is_state_op(o) for o in ops):
+                ml, cm = model_line_for(ops, ps, ref)
+                mfeed.append(ml)
+                mwant.append((schema, opts, keys, ops, info["obs"], cm))
         seen_keys = set()
         for key, what in bad:
             if key in seen_keys:
                 continue
             seen_keys.add(key)
             stats["oracle_fail"] += 1
-            cls = "%s:%s:%s" % (schema, opts, key)
+            kinds = sorted({o.split()[0] + ("-option" if o.startswith("O ") else "") for o in ops if is_state_op(o)})
+            cls = "%s:%s:%s%s" % (schema, opts, key, (":after-" + "+".join(kinds)) if kinds else "")
             ctx.violation("api:" + cls, "librime violates the property on a stock schema: " + what,
                           {"schema": schema, "options": opts, "input_keys": keys, "ops": ops, "observed": line[:3000],
                            "how": "deploy data/minimal (+ %s as shared/opencc when an option needs OpenCC), select the schema, set the "
-                                  "options, type input_keys, then apply ops (format: harness/c04/c04.cc api mode)" % OPENCC,
+                                  "options, type input_keys (=text: set_input), then apply ops (format: harness/c04/c04.cc api mode); "
+                                  "E entries are the lists of brand-new sessions brought to the same input/caret/options" % OPENCC,
                            "cmd": "echo '%s %s %s %d %s' | %s api <workspace>" % (schema, opts, keys, len(ops), " ".join(ops), exe)},
                           found_input=True)
     # extracted model over the sampled lists: every observation (return values, selected index, pages, iterator)
